@@ -37,6 +37,9 @@ func profiles() map[string]world.Profile {
 	system := map[string]int{"CreateLocation": 6, "AddFact": 20, "RemFact": 8, "GetFact": 8, "SearchFacts": 12, "AddRule": 12,
 		"RemRule": 6, "GetRule": 3, "EnableRule": 6, "SetParents": 5, "GetParents": 2, "Clear": 2, "StateSize": 3,
 		"ListRules": 4, "SearchRules": 3, "ProcessEvent": 14}
+	svc := map[string]int{"CreateLocation": 4, "AddFact": 22, "RemFact": 8, "GetFact": 12, "SearchFacts": 12, "AddRule": 12,
+		"RemRule": 6, "EnableRule": 6, "SetParents": 5, "GetParents": 3, "Clear": 2, "StateSize": 3,
+		"ListRules": 4, "ProcessEvent": 12, "BadRequest": 8}
 	ids := []string{"f1", "f2", "f3"}
 	return map[string]world.Profile{
 		"facts":    {Name: "facts", Len: 40, Locs: []string{"A"}, Ids: ids, MaxFacts: 1000, Weights: facts},
@@ -49,6 +52,7 @@ func profiles() map[string]world.Profile {
 		"dispatch": {Name: "dispatch", Len: 40, Locs: []string{"A", "B"}, Ids: []string{"r1", "r2", "r3", "f1", "f2"}, Rules: true, Dispatch: true, Parents: true, MaxFacts: 1000, Weights: dispatch},
 		"index":    {Name: "index", Len: 50, Locs: []string{"A"}, Ids: []string{"r1", "r2", "r3", "r4"}, Rules: true, Index: true, MaxFacts: 1000, Weights: index},
 		"system":   {Name: "system", Len: 50, Locs: []string{"A", "B", "C"}, Ids: []string{"f1", "f2", "r1", "r2"}, Rules: true, Parents: true, Cascade: true, MaxFacts: 1000, Weights: system},
+		"service":  {Name: "service", Len: 50, Locs: []string{"A", "B"}, Ids: []string{"f1", "r 1", "a\"b", "x&y=z", "%25+\u00fc"}, Rules: true, Parents: true, MaxFacts: 1000, Weights: svc},
 		"parents":  {Name: "parents", Len: 45, Locs: []string{"A", "B", "C"}, Ids: []string{"f1", "f2", "r1", "r2"}, Rules: true, Parents: true, MaxFacts: 1000, Weights: parents},
 	}
 }
@@ -101,7 +105,7 @@ func main() {
 					ms, _ := core.NewMemStorage(ctx)
 					_ = store
 					cfg := world.Config{State: st, Store: "mem", MaxFacts: p.MaxFacts, Locs: p.Locs, Via: *via}
-					if *via == "system" {
+					if *via == "system" || *via == "http" {
 						cfg.Sys.TTL = *ttl
 						if *ttl == "all" {
 							cfg.Sys.TTL = []string{"never", "1ms", "forever"}[i%3]
